@@ -75,6 +75,8 @@ def gen_spec(rng):
             'iunits': rng.choice(['seconds', 'seconds_past_midnight', 's']),
             'times': [float(t0 + 60 * r) for r in range(nrec)],
             'interval': rng.choice([0, 1, 60]),
+            # the format puts the independent variable first; a source file need not
+            'ivar_pos': rng.choice([0, 0, 0, 1, 2, 9]),
             'std_attrs': rng.random() < 0.8}
 
 
@@ -82,11 +84,13 @@ def build_source(spec):
     import PseudoNetCDF as pnc
     f = pnc.PseudoNetCDFFile()
     f.createDimension('POINTS', spec['nrec'])
-    tv = f.createVariable(spec['ivar'], 'd', ('POINTS',))
-    tv.units = spec['iunits']
-    tv.standard_name = spec['ivar']
-    tv[:] = np.array(spec['times'], dtype='d')
-    for v in spec['vars']:
+    def mk_ivar():
+        tv = f.createVariable(spec['ivar'], 'd', ('POINTS',))
+        tv.units = spec['iunits']
+        tv.standard_name = spec['ivar']
+        tv[:] = np.array(spec['times'], dtype='d')
+
+    def mk_dep(v):
         miss = v['missing']
         var = f.createVariable(v['name'], 'd', ('POINTS',), missing_value=miss)
         var.units = v['units']
@@ -98,6 +102,14 @@ def build_source(spec):
         # a value equal to the missing code is a missing value in this format
         a = np.ma.masked_where(np.ma.getdata(a) == miss, a)
         var[:] = a
+    # creation order: the independent variable at position ivar_pos
+    order = list(spec['vars'])
+    order.insert(min(spec.get('ivar_pos', 0), len(order)), None)
+    for v in order:
+        if v is None:
+            mk_ivar()
+        else:
+            mk_dep(v)
     if spec['std_attrs']:
         f.PI_NAME = 'Stub, P.I.'
         f.ORGANIZATION_NAME = 'Stub organisation'
@@ -233,6 +245,21 @@ def gen_op(rng, st):
     ops.append(rng.choice([{'op': 'clock_jump', 'seconds': rng.choice([43200, 86400, 31622400])},
                            {'op': 'collect'}]))
     ops.append({'op': 'second', 'cid': cid, 'from': rng.choice(['ack', 'path'])})
+    if rng.random() < 0.4:
+        # a file produced by the stub peer (an instrument team): non-unit scale
+        # factors, then library read -> write -> read
+        nrec = rng.randrange(1, 8)
+        nv = rng.randrange(1, 4)
+        sv = []
+        for n in rng.sample(NAMES, nv):
+            miss = rng.choice([-9999, -999, -99999, -8888])
+            raw = [rng.choice([miss, float(rng.randrange(-500, 5000)) / 4.0, 0.0,
+                               rng.randrange(1, 10 ** 6) / 997.0]) for _ in range(nrec)]
+            sv.append({'name': n, 'units': rng.choice(UNITS), 'missing': miss,
+                       'scale': rng.choice([1, 1, 0.1, 10, 0.001, 2.5]), 'raw': raw})
+        ops.append({'op': 'stub_cycle', 'cid': cid, 'nrec': nrec, 'vars': sv,
+                    'file': 'stub%d.%s' % (cid, rng.choice(['ict', 'ffi1001'])),
+                    'how': rng.choice(['explicit', 'auto'])})
     st.queue = ops
     return st.queue.pop(0)
 
@@ -393,6 +420,53 @@ def apply(st, op):
         if diff:
             raise Violation('second-cycle-changes-data', '; '.join(x[1] for x in diff[:3]),
                             sig={'field': diff[0][0]})
+    elif o == 'stub_cycle':
+        from PseudoNetCDF.pncgen import pncgen
+        nrec = op['nrec']
+        doc = {'date': (2004, 7, 15), 'rev': (2005, 1, 2), 'ivar': ('Start_UTC', 'seconds'),
+               'vars': [(v['name'], v['units'], v['scale'], v['missing']) for v in op['vars']],
+               'normal': ['PI_CONTACT_INFO: nobody@example.org', 'REVISION: R0'],
+               'rows': [[43200 + 60 * r] + [v['raw'][r] for v in op['vars']] for r in range(nrec)]}
+        path = w.path(op['file'])
+        with open(path, 'wb') as fh:
+            fh.write(icartt.encode(doc))
+        names = ['Start_UTC'] + [v['name'] for v in op['vars']]
+        truth = {'names': names, 'units': {'Start_UTC': 'seconds'}, 'missing': {},
+                 'vals': {'Start_UTC': (np.array([43200. + 60 * r for r in range(nrec)]),
+                                        np.zeros(nrec, bool))}}
+        for v in op['vars']:
+            raw = np.array(v['raw'], dtype='d')
+            truth['units'][v['name']] = v['units']
+            truth['missing'][v['name']] = v['missing']
+            truth['vals'][v['name']] = (raw * v['scale'], raw == v['missing'])
+        st.stats['evaluations'] += 1
+        st.stats['stub_cycles'] = st.stats.get('stub_cycles', 0) + 1
+        try:
+            g = _open(path, op['how'])
+            first = canon_from_library(g)
+        except BaseException as e:
+            raise Violation('reference-file-not-read', 'FFI-1001 file from the reference encoder: '
+                            '%s: %s' % (type(e).__name__, e), sig={'error': type(e).__name__})
+        d = compare(truth, first, 'library reader on a reference-encoded file (scale factors %s)'
+                    % [v['scale'] for v in op['vars']])
+        if d:
+            raise Violation('reference-file-read-differently', '; '.join(x[1] for x in d[:3]),
+                            sig={'field': d[0][0]})
+        try:
+            p2 = w.path('re_' + op['file'])
+            h2 = pncgen(g, p2, format='ffi1001', verbose=0)
+            a2 = w.path('reack_' + op['file'])
+            shutil.copyfile(p2, a2)
+            second = canon_from_library(_open(a2, 'explicit'))
+            h2.close()
+        except BaseException as e:
+            raise Violation('second-cycle-raised', '%s: %s' % (type(e).__name__, e),
+                            sig={'error': type(e).__name__})
+        d = compare(truth, second, 'write/read cycle of a file read from the reference encoder '
+                    '(scale factors %s)' % [v['scale'] for v in op['vars']])
+        if d:
+            raise Violation('round-trip-differs', '; '.join(x[1] for x in d[:3]),
+                            sig={'field': d[0][0], 'source': 'reference-file'})
     elif o == 'final':
         for cid in sorted(st.wr):
             wr = st.wr[cid]
